@@ -5,6 +5,7 @@ set -u
 name="$1"; shift
 dst=/verif/seeded/$name
 cd /verif
+if [ -n "$(git -C /repo status --porcelain -- src)" ]; then echo "refusing: /repo has uncommitted changes under src (they would be lost)"; exit 2; fi
 git -C /repo apply "$dst/patch.diff" || { echo "patch does not apply"; exit 2; }
 echo "--- recheck $(date -u +%FT%TZ) at /verif $(git -C /verif log --format=%h -1), /repo $(git -C /repo log --format=%h -1)" | tee -a "$dst/run.log"
 (cd /repo && PYTHONPATH=/repo/src timeout 600 /venv/bin/python "$dst/demo.py" > "$dst/demo_with.log" 2>&1; echo "demo_with_exit=$?" ) | tee -a "$dst/run.log"
